@@ -125,6 +125,37 @@ fn test(c: &Case, st: &mut Stats) -> TestResult {
             ),
         ));
     }
+    // (4) alongside agents that use NEARLY the same parameters (same transaction id and destination,
+    // timeouts a fraction of a millisecond away), judged against the reference model: state shared
+    // outside the agent (caches, tables keyed on such parameters) would make the schedule wrong.
+    // A deviation is only blamed on the other agents if the same history with neighbouring
+    // parameters (never seen before in this process) behaves correctly in isolation and deviates
+    // again next to them; otherwise it is a plain timing / life-cycle defect (C05, C06).
+    if h.ops.iter().any(|o| matches!(o, Op::SendConfigured { .. } | Op::Configure { .. })) {
+        let with = guard(|| agentsim::run_history_with_interference(h)).map_err(|p| Fail::new("c20-panic", p))?;
+        st.class("history with configured timeouts run next to near-identical agents");
+        // only what other agents could plausibly disturb through shared state is examined here: the
+        // schedule, the life cycle and the payload (peer validation and authentication verdicts are
+        // functions of the messages alone and are judged by C15 / C07 in isolation)
+        let disturbed = match &with {
+            Err(d) if ["C05", "C06", "C18"].contains(&d.tag) => Some(d.clone()),
+            _ => None,
+        };
+        if let Some(d) = disturbed {
+            let isolated = guard(|| agentsim::run_history(&agentsim::shift_config(h, 2))).map_err(|p| Fail::new("c20-panic", p))?;
+            let again = guard(|| agentsim::run_history_with_interference(&agentsim::shift_config(h, 4))).map_err(|p| Fail::new("c20-panic", p))?;
+            if isolated.is_ok() && again.is_err() {
+                return Err(Fail::new(
+                    "c20-other-agents",
+                    format!(
+                        "next to unrelated agents that configure nearly the same timeouts (sub-millisecond differences) the agent deviates from the reference model ({}), while the same history with neighbouring parameters is handled correctly when it runs alone",
+                        d.msg
+                    ),
+                ));
+            }
+            st.class("deviates from the model with and without other agents (C05/C06's business, not judged here)");
+        }
+    }
     let tx = base.iter().flatten().filter(|l| l.contains(" tx ")).count();
     let waits = base.iter().flatten().filter(|l| l.starts_with("wait ")).count();
     let focus_lines = pb.iter().flatten().count();
@@ -175,7 +206,9 @@ pub fn run(ctx: &Ctx) -> EvidenceMeta {
                recorded per step as sorted multisets with instants relative to the origin. Metamorphic oracles between executions of the \
                real code: (1) origin shifted by 0..=10^9 ms -> identical records; (2) second agent instance, 0..8 unrelated agents created and \
                polled in between, and a spawned thread -> identical records; (3) the same history with the instants passed to the OTHER transactions' send calls moved by 1..5000 ms (same poll \
-               instants) -> identical projected timeline of the focus transaction. Non-trivial = history with >= 1 retransmission and >= 1 WaitUntil compared; distinct by (history, shift)."
+               instants) -> identical projected timeline of the focus transaction; (4) histories with configured timeouts run against the reference \
+               model while unrelated agents configure nearly the same timeouts (sub-millisecond differences) just before: a deviation that \
+               disappears in isolation (neighbouring, fresh parameters) and reappears next to them is shared state. Non-trivial = history with >= 1 retransmission and >= 1 WaitUntil compared; distinct by (history, shift)."
             .into(),
         assumptions: vec![
             "'another thread' is one spawned thread per replay; the agent is single-owner (&mut self), there is no interleaving to explore".into(),
